@@ -48,6 +48,10 @@ CLAIMED = {
  "C16": ("exploration", "Engine R", "owned randomness for the MCMC sampler (Generator proxy: pair choice, reshuffle choice, accept/reject coin with forced accept / reject stretches); every yielded sample checked; same-seed runs with the global entropy perturbed",
          "Three modes (initial hypergraph with any labels, total-matching degree+size sequences - realisable or not -, model alone); burn-in 0..5, thinning 0..3 (thinning 1 turns every chain step into a yielded sample); each yielded hypergraph: weighted, positive integer weights, no repeated hyperedge, sizes >= 2 (<= max size from the model), nodes of the model / initial hypergraph; size counts never exceeded, degrees never exceeded when an initial hypergraph is given or matching_sequences is True, exact equality when nothing coincided; two samplers with the same parameters and seed yield identical samples (or raise identically) although unseeded entropy differs.",
          "A call that raises produces no sample (counted, not a violation); N <= 8, K <= 3."),
+
+ "C17": ("exploration", "Engine R", "owned randomness (module-local logging RandomState whose node-update permutation - the schedule - may be replaced by identity / reverse / rotation), simulated clock with jumps, stalls and backward steps, perturbed global PRNGs; same-seed identity across two differently faulted runs",
+         "HypergraphMT.fit: shapes, finiteness, non-negativity, zero rows for isolated nodes, maxL = best final value of the training table, per-iteration ascent of the recorded log-likelihood (normalizeU=False), agreement of maxL with the likelihood from its definition over all C(N,d) subsets (min_value_par=0), identical (u, w, maxL, training table minus runtime) for the same seed under a different simulated clock and perturbed global PRNG state; HySC.fit: 0/1 matrix, one 1 per non-isolated row, none for isolated rows, same result for the same seed.",
+         "Three rare numerical defects of Hypergraph-MT are listed known findings (row normalisation, recorded log-likelihood decreasing, maxL vs definition; KNOWN_FINDINGS.txt): a change that only breaks one of these three clauses is masked by them.  Threads of scikit-learn/BLAS pinned to 1."),
 }
 NA = {
  "C08": "pure function of the hypergraph value (degrees, components): no history, I/O, random draw, clock or interleaving for a simulator to own (DESIGN.md 8)",
